@@ -974,7 +974,7 @@ def is_dropped_stmt(st):
                           or (len(chain) > 1 and chain[0] == 'self' and chain[1] == 'log')):
                 if chain[-1] in ('debug', 'info', 'warning', 'warn', 'error', 'critical', 'exception', 'log'):
                     return "logging call"
-            if chain == ['print']:
+            if chain == ['print'] and not any(kw.arg == 'file' for kw in v.keywords):
                 return "print"
     if isinstance(st, ast.Delete):
         if all(isinstance(t, ast.Name) for t in st.targets):
@@ -1383,8 +1383,8 @@ class Interp:
                 return BUILTINS[n.id]
             if n.id in EXC_PARENTS or n.id == 'BaseException':
                 return ExcClass(n.id)
-            if self.module_env is not None and getattr(self, '_assigned_locally', None) is not None \
-                    and n.id in self._assigned_locally:
+            if getattr(self, '_assigned_locally', None) is not None and n.id in self._assigned_locally \
+                    and not (self.module_env is not None and self.module_env.has(n.id)):
                 raise PyRaise(ExcValue('UnboundLocalError', (n.id,)))
             self.ctx.session.note_unmodelled(n.id)
             return UnknownCallable(n.id)
@@ -1741,12 +1741,20 @@ class Interp:
             raise Undecided("call to repo function %s without contract or inline permission" % qn)
         if ctx.info is not None and qn != '<lambda>' and qn not in ctx.info["inlined"]:
             ctx.info["inlined"].append(qn)
+        saved_info = ctx.info
+        if qn != '<lambda>' and clo.relpath and not getattr(clo, 'local', False):
+            try:
+                ctx.info = ctx.session.register_function(clo.relpath, qn, clo.node)
+            except Undecided:
+                pass
         self.depth += 1
         if self.depth > 40:
             raise Undecided("recursion too deep")
+        saved_locals = getattr(self, '_assigned_locally', None)
         try:
             env = Env({}, clo.env)
             self.bind_args(clo.node, env, args, kwargs)
+            self._assigned_locally = set(assigned_names(clo.node.body))
             try:
                 self.exec_block(clo.node.body, env)
             except _Return as r:
@@ -1754,6 +1762,8 @@ class Interp:
             return None
         finally:
             self.depth -= 1
+            self._assigned_locally = saved_locals
+            ctx.info = saved_info
 
     def bind_args(self, fd, env, args, kwargs, defaults_env=None):
         a = fd.args
@@ -2066,7 +2076,11 @@ def list_method(lst, name):
     if name == 'append':
         return Model(lambda ctx, x: lst.append(x), 'list.append')
     if name == 'extend':
-        return Model(lambda ctx, xs: lst.extend(ctx.interp.iterate(xs)), 'list.extend')
+        def extend(ctx, xs):
+            if isinstance(xs, PyObj) and hasattr(xs, 'extend_into_'):
+                return xs.extend_into_(ctx, lst)
+            lst.extend(ctx.interp.iterate(xs))
+        return Model(extend, 'list.extend')
     if name == 'pop':
         def pop(ctx, *a):
             try:
